@@ -1,6 +1,6 @@
 /-
   C16 — property theorems (and non-vacuity examples) ONLY.  Helper lemmas: `Lemmas.lean`,
-  `Columns.lean`, `Ops.lean`, `Refine.lean`, `ReadOnly.lean`.
+  `Columns.lean`, `Ops.lean`, `Refine.lean`, `Steps.lean`, `ReadOnly.lean`, `RoSteps.lean`.
 
   Property text: "For every history of assignments, temporary assignments, function calls and
   returns, local declarations, exports, read-only marks and unsets, looking up a variable returns
@@ -14,7 +14,7 @@
   former into the latter.  All theorems are for every normalised set / every history, any number of
   contexts and names.
 -/
-import YashModel.Variable.ReadOnly
+import YashModel.Variable.RoSteps
 namespace YashModel.Variable
 
 /-! ### the normal form is an invariant -/
@@ -150,6 +150,86 @@ theorem run_refines (ops : List Op) : abs (VariableSet.new.run ops) = SSet.run S
       rw [ih _ (step_abs hs op).2.2, (step_abs hs op).1]
   exact this ops _ norm_init
 
+/-! ### read-only variables -/
+
+/-- the auxiliary invariant (a volatile variable directly above a read-only instance of the same
+    name is a copy of it) holds in every reachable set -/
+theorem shadow_reachable (ops : List Op) : ShadowInv (VariableSet.new.run ops) :=
+  (run_shadow norm_init (fun _ => trivial) ops).2
+
+/-- ★ `readonly_immutable` (persistence): in every reachable set, for every operation other than
+    popping a context, every read-only instance `(name, value)` — visible or hidden — has a read-only
+    instance `(name, value)` with the same mark afterwards (it may have moved from a volatile to a
+    regular context; nothing else can happen to it) -/
+theorem readonly_immutable (ops : List Op) (op : Op) (hop : op ≠ .pop) (n : Name) (e : VIC)
+    (he : e ∈ (VariableSet.new.run ops).all n) (hro : e.var.isReadOnly = true) :
+    ∃ e' ∈ ((VariableSet.new.run ops).step op).1.all n,
+      e'.var.isReadOnly = true ∧ e'.var.value = e.var.value ∧ e'.var.readOnly = e.var.readOnly := by
+  obtain ⟨hN, hS⟩ := run_shadow norm_init (fun _ => trivial) ops
+  obtain ⟨e', he', h1, h2⟩ := step_keeps hN hS op hop n e he hro
+  exact ⟨e', he', h1, h2.1, h2.2⟩
+
+/-- ★ `readonly_immutable` (assignment): when the variable `get_or_new` hands out is read-only, the
+    assignment is refused with its location and changes nothing -/
+theorem readonly_assign_refused (s s1 : VariableSet) (n : Name) (sc : Scope) (v : Value) (loc : Option Nat)
+    (hg : s.getOrNew n sc = some s1) (x : Variable) (l : Nat) (hx : s1.get n = some x)
+    (hl : x.readOnly = some l) :
+    (s.step (.assign n sc v loc)).2 = .readOnly l ∧
+    ∀ m, (s.step (.assign n sc v loc)).1.all m = s1.all m := by
+  simp only [VariableSet.step, hg, hx, Option.getD_some]
+  refine ⟨by simp [assignRes, hl], fun m => ?_⟩
+  simp only [VariableSet.modifyLast, VariableSet.setStack]
+  split
+  · rename_i hm; subst hm
+    simp only [VariableSet.get] at hx
+    rw [← List.head?_reverse] at hx
+    cases hr : (s1.all m).reverse with
+    | nil => simp [hr] at hx
+    | cons u r =>
+      simp only [hr, List.head?_cons, Option.map_some, Option.some.injEq] at hx
+      have hu : u.var.assign v loc = u.var := by simp [Variable.assign, Variable.isReadOnly, hx, hl]
+      simp only [modifyHead, hu]
+      have : (⟨u.var, u.ctx⟩ : VIC) = u := rfl
+      rw [this, ← hr, List.reverse_reverse]
+  · rfl
+
+/-- ★ `readonly_immutable` (unset): an `unset` that is refused removes nothing; and (through
+    `unset_refines`) it is refused exactly when the Spec finds a read-only variable of the name in
+    one of the contexts of the scope -/
+theorem readonly_unset_refused (s : VariableSet) (n : Name) (scope : Scope) (l : Nat)
+    (h : (s.unset n scope).2 = .readOnly l) : (s.unset n scope).1 = s := by
+  simp only [VariableSet.unset] at h ⊢
+  cases hf : ((s.all n).drop (partitionPoint (fun vic => decide (vic.ctx < indexOfContext scope s.contexts))
+      (s.all n))).reverse.find? (fun vic => vic.var.isReadOnly) with
+  | some vic => rfl
+  | none => rw [hf] at h; cases h
+
+/-- the Spec side of that: a read-only variable in any context of the scope makes `unset` fail -/
+theorem spec_unset_touching_readonly_fails (X : SSet) (n : Name) (k j : Nat) (c : SCtx) (v : Variable)
+    (hj : j < k) (hc : X[j]? = some c) (hv : c.vars n = some v) (hro : v.isReadOnly = true) :
+    (firstReadOnly n k X).isSome = true := by
+  induction X generalizing k j with
+  | nil => simp at hc
+  | cons d X ih =>
+    cases k with
+    | zero => omega
+    | succ k =>
+      cases j with
+      | zero =>
+        simp only [List.getElem?_cons_zero, Option.some.injEq] at hc; subst hc
+        simp only [firstReadOnly, hv, hro, if_true]
+        exact hro
+      | succ j =>
+        simp only [List.getElem?_cons_succ] at hc
+        have := ih k j (by omega) hc
+        simp only [firstReadOnly]
+        cases hd : d.vars n with
+        | none => exact this
+        | some w =>
+          by_cases hw : w.isReadOnly = true
+          · simp only [hw, if_true]; exact hw
+          · simp only [hw]; exact this
+
 /-! ### non-vacuity: a set with a hidden global, a local and a temporary variable -/
 
 def exOps : List Op :=
@@ -162,5 +242,17 @@ example : ((VariableSet.new.run exOps).popContext.popContext).get "x"
     = some { value := some (.scalar "1"), exported := true } := by decide
 example : (VariableSet.new.run exOps).env ["x"] = [] := by decide
 example : ((VariableSet.new.run exOps).popContext.popContext).env ["x"] = [("x", "1")] := by decide
+
+/-- a read-only global, copied into a volatile context, exported there, then lowered back -/
+def roOps : List Op :=
+  [.assign "x" .global (.scalar "1") none, .readonly "x" .global 7, .push .volatile,
+   .export "x" .volatile true]
+
+example : ((VariableSet.new.run roOps).all "x").map (fun e => (e.ctx, e.var.isReadOnly)) = [(0, true), (1, true)] := by
+  decide
+example : (((VariableSet.new.run roOps).step (.assign "x" .global (.scalar "2") none)).2) = .readOnly 7 := by decide
+example : (((VariableSet.new.run roOps).step (.assign "x" .global (.scalar "2") none)).1.get "x")
+    = some { value := some (.scalar "1"), exported := true, readOnly := some 7 } := by decide
+example : ((VariableSet.new.run roOps).unset "x" .global).2 = .readOnly 7 := by decide
 
 end YashModel.Variable
